@@ -258,9 +258,20 @@ def stepCore (s : St) (op impl : String) : St × StepOut :=
     if !plain && kind.length < 3 then skip else
     if !plain && implHead == "skip" then skip else
     let adv := if plain then plainAdvertised else implAdv
+    -- the value handed to SetConnectionIDLimit (-1: not called) is an input as well
+    let implSet := intOf ((field lw "set=").getD "-1")
+    let set : Int := if plain then -1 else implSet
     let m := Manager.new (unhx dest)
-    finM { s with adv := adv } m s!"adv={adv}" [] implEvs false im none false
+    let m := if set ≥ 0 then m.setConnectionIDLimit set.toNat else m
+    finM { s with adv := adv } m s!"adv={adv} set={set}" [] implEvs false im none false
       [if plain then "init:plain" else "init:spec", if (unhx dest).isEmpty then "init:zero-length" else "init:nonzero"] []
+  | ["limit", n] =>
+    if s.newSeen then skip else
+    let (s, m) := s.ensureM
+    let n := natOf n
+    let adv := if n == 0 then Uquic.Gen.Protocol.DefaultActiveConnectionIDLimit.toNat else n
+    finM { s with adv := adv } (m.setConnectionIDLimit n) "ok" [] implEvs false im none false
+      [if n > enforcedQueueBound then "limit:above-default" else "limit:within-default"] []
   | ["new", seq, rpt, id, tok] =>
     let (s, m) := s.ensureM
     let seq := natOf seq; let rpt := natOf rpt; let id := unhx id; let tok := tok16 (unhx tok)
@@ -274,7 +285,7 @@ def stepCore (s : St) (op impl : String) : St × StepOut :=
     let unretired := (rcvd.filter fun x => !retiredNow.contains x).length
     let af : List Fail :=
       if implHead == "E:CONNECTION_ID_LIMIT_ERROR" && unretired ≤ s.adv && !s.mg.tainted && !s.mg.dead then
-        [("accept_within_advertised", if s.adv > enforcedQueueBound then "advertised_limit_above_enforced" else "-",
+        [("accept_within_advertised", "-",
           s!"CONNECTION_ID_LIMIT_ERROR with {unretired} unretired connection IDs, advertised active_connection_id_limit {s.adv}")]
       else []
     let tag := match res with
